@@ -135,7 +135,7 @@ func c17NewEnv(dir string) *c17Env {
 }
 
 func (e *c17Env) run(a c17Action) string {
-	res := comp.Compile(c17Inputs[a.Input], comp.Opts{Optimize: a.Opt, LineMarkers: true, Path: "h.pory", FontPath: e.fonts[a.Font], FontID: []string{"", "g"}[a.FontID], MaxLen: []int{0, 9}[a.MaxLen], Switches: e.sws[a.Sw], Cmd: e.cmds[a.Cmd]})
+	res := comp.Compile(c17Inputs[a.Input], comp.Opts{Optimize: a.Opt, LineMarkers: true, Path: c17Paths[a.Font%len(c17Paths)], FontPath: e.fonts[a.Font], FontID: []string{"", "g"}[a.FontID], MaxLen: []int{0, 9}[a.MaxLen], Switches: e.sws[a.Sw], Cmd: e.cmds[a.Cmd]})
 	switch {
 	case res.Panic != "":
 		return "PANIC " + firstLine(res.Panic)
@@ -321,6 +321,10 @@ func c17Section(out string, st c17Stmt) string {
 		return "<hoisted: " + strings.Join(data, " | ") + ">"
 	})
 }
+
+// c17Paths: the input path of an action follows its font-file choice (no extra dimension): two different paths with
+// backslashes and one without, so histories compile under changing paths.
+var c17Paths = []string{`da\sub\h.pory`, `db\sub\h.pory`, `h.pory`}
 
 // c17CtxFont is the font file of the context compilations: one font without a "default" width, so that glyphs
 // missing from the table are 0 wide, and a short line.
